@@ -1170,7 +1170,17 @@ class Store:
             for child, inner_value in value.items():
                 if child not in self.inner:
                     if self.subschema:
-                        self.inner[child] = Store(self.subschema, self)
+                        if self.subtopology:
+                            # wire the sub-variables of the new child the
+                            # way the glob port's own topology says, as
+                            # for children that exist already
+                            self.inner[child] = Store({}, self)
+                            self.inner[child]._topology_ports(
+                                self.subschema,
+                                self.subtopology,
+                                source=self.path_for() + ('*',))
+                        else:
+                            self.inner[child] = Store(self.subschema, self)
                     else:
                         pass
                         # TODO: continue to ignore extra keys?
